@@ -509,9 +509,18 @@ pub fn predict(seq: u64, pairs: &Pairs, op: &Op, m: &ModelCtx) -> Pred {
     }
     if content_update && seq == u64::MAX {
         must.push(Cause::SeqOverflow);
-    }
-    if record_size(signer, new_seq, &work) > 300 {
+        // there is no incremented number to size the result with; with a number as long as the
+        // current one the result may be too large as well ("when several apply, any of them")
+        if record_size(signer, u64::MAX, &work) > 300 {
+            may.push(Cause::Size);
+        }
+    } else if record_size(signer, new_seq, &work) > 300 {
         must.push(Cause::Size);
+    }
+    if signer.sig_len.is_none() && !must.contains(&Cause::Size) {
+        // variable-length signatures: the library sizes the candidate with the signature it holds at
+        // that moment; the statements fix "refused exactly when exceeded" for 64-byte signatures only
+        may.push(Cause::Size);
     }
     Pred { seq: new_seq, pairs: work, ret, must, may, corner }
 }
@@ -586,7 +595,7 @@ pub fn predict_build(entries: &[BEntry], signer: &MSigner) -> Pred {
     let size = record_size(signer, seq, &work);
     if size > 300 {
         must.push(Cause::Size);
-    } else if size >= 292 {
+    } else if size >= 292 || signer.sig_len.is_none() {
         may.push(Cause::SizeSlack);
     }
     Pred { seq, pairs: work, ret: Ret::Unit, must, may, corner }
